@@ -66,10 +66,10 @@ PROPS = {
                 "AfterCommit hooks - for admission, retry bookkeeping and completion writes alike) is fired once in turn, each followed by a restart; "
                 "sampled phase: seeded histories, schedules, fault subsets (crash points, KV errors in the admission path, restarts at arbitrary scheduler "
                 "steps). Non-trivial: at least one receiver call and one fault or non-FIFO decision; distinct = (case, crash point) signatures plus trace hashes.",
-        "invariants": ["C14.admitted-only", "C14.at-least-once", "C14.failed-visible", "C14.no-redelivery", "C14.backoff", "C14.replay-at-start"],
+        "invariants": ["C14.admitted-only", "C14.at-least-once", "C14.failed-visible", "C14.no-redelivery", "C14.backoff", "C14.replay-at-start", "C14.budget"],
         "assumptions": KV_ASSUME + ["storage errors are injected in the admission path only; the fault model of delivery is the process stop and the subscriber's own behaviour",
                                     "liveness clauses are evaluated 2 virtual hours after faults stop (10 retries take about 17 virtual minutes)"],
-        "probes_expected": ["restart-after-crash", "crash.after-commit", "crash.before-commit", "crash.between-hooks", "crash.any-step"],
+        "probes_expected": ["restart-after-crash", "restart-with-one-attempt-left", "subscriber-reported-unknown-context", "crash.after-commit", "crash.before-commit", "crash.between-hooks", "crash.any-step"],
         "quick": {"phases": [
             {"name": "enum", "env": {"VERIF_MODE": "enum"}, "budget_s": 70, "chunk": 1, "base": 1000000},
             {"name": "sampled", "budget_s": 60, "chunk": 10},
